@@ -81,14 +81,19 @@ def opt_member_chain(n):
     return member_chain(n)
 
 
-def strict_eq_literal(n):
-    """(expr, 'literal') for `expr === 'literal'`"""
+def strict_eq_literal(n, consts=None):
+    """(expr, 'literal') for `expr === 'literal'` (or a module-level string constant)"""
     if n.get("type") == "BinaryExpression" and n["operator"] in ("===", "=="):
         l, r = n["left"], n["right"]
         if r.get("type") == "StringLiteral":
             return (l, r["value"])
         if l.get("type") == "StringLiteral":
             return (r, l["value"])
+        if consts:
+            if r.get("type") == "Identifier" and r["value"] in consts:
+                return (l, consts[r["value"]])
+            if l.get("type") == "Identifier" and l["value"] in consts:
+                return (r, consts[l["value"]])
     return None
 
 
